@@ -104,11 +104,64 @@ def statement_seq(draw, *, arity: int, mode: str, max_len: int = 12, min_len: in
         stt = []
         for j, pool in enumerate(pools):
             if i and (rep >> j) & 1 and draw(st.booleans()):
-                stt.append(out[-1][j])
+                prev = out[-1][j]
+                if draw(st.integers(0, 3)) == 0:
+                    # a near miss instead of a repeat: a term that differs from the previous one in this slot in ONE
+                    # respect (tag case, datatype, trailing character, term kind with the same string) - whatever decides
+                    # "same term as before" must not take it for a repeat
+                    kinds = {t[0] for t in pool}
+                    cands = [t for t in near_misses(prev, rdflib_safe) if t[0] in kinds
+                             and not (rdflib_safe and j == 3 and t in (["iri", ""], ["bnode", ""]))]
+                    if cands:
+                        prev = cands[draw(st.integers(0, len(cands) - 1))]
+                stt.append(prev)
             else:
                 stt.append(draw(st.sampled_from(pool)))
         out.append(stt)
     return out
+
+
+def near_misses(t, rdflib_safe=False):
+    """Terms that differ from t in one respect only."""
+    k = t[0]
+    out = []
+    if k == "lit":
+        _, lexv, lang, dt = t
+        if lang:
+            if not rdflib_safe:  # rdflib compares language tags case-insensitively: there these are the same term
+                for v in (lang.lower(), lang.upper(), lang.swapcase()):
+                    if v != lang:
+                        out.append(["lit", lexv, v, None])
+            out.append(["lit", lexv, None, None])
+        elif dt:
+            out.append(["lit", lexv, None, None])
+            out.append(["lit", lexv, None, DATATYPES[(DATATYPES.index(dt) + 1) % len(DATATYPES)] if dt in DATATYPES else DATATYPES[0]])
+        else:
+            out.append(["lit", lexv, None, XSD + "string"])
+            out.append(["lit", lexv, "en", None])
+            out.append(["lit", lexv, None, DATATYPES[0]])
+        out.append(["lit", lexv + " ", lang, dt])
+        out.append(["lit", lexv.swapcase(), lang, dt])
+        out.append(["iri", lexv])
+        out.append(["bnode", lexv])
+    elif k == "iri":
+        v = t[1]
+        out += [["iri", v + "/"], ["iri", v + "#"], ["iri", v[:-1]], ["iri", v.swapcase()], ["bnode", v], ["lit", v, None, None]]
+    elif k == "bnode":
+        v = t[1]
+        out += [["bnode", v + "0"], ["bnode", v.swapcase()], ["iri", v], ["lit", v, None, None]]
+    elif k == "triple":
+        for pos in (1, 2, 3):
+            for alt in near_misses(t[pos], rdflib_safe)[:2]:
+                if alt[0] != "default":
+                    q = list(t)
+                    q[pos] = alt
+                    out.append(q)
+    elif k == "default":
+        out += [["iri", "urn:x-rdflib:default-"], ["bnode", "default"]]
+    if rdflib_safe:  # rdflib's name for the default graph is an IRI: as a term it IS the default graph
+        out = [x for x in out if x[:2] != ["iri", "urn:x-rdflib:default"]]
+    return [x for x in out if x != t]
 
 
 def _all_datatypes(t, out):
